@@ -194,8 +194,11 @@ def r2_fraction(rep, ctx):
     if X is None:
         raise AnalysisError("Fraction.__init__: the scaling loop does not test abs(x - round(x)) against a tolerance (normalisation idiom changed)")
     after = None
-    for st in ast.walk(init.node):
-        if isinstance(st, ast.Assign) and isinstance(st.targets[0], ast.Name) and st.targets[0].id == X and isinstance(st.value, ast.Call) and st.lineno > loops[0].end_lineno \
+    order = program_order(init.node)
+    inside = {id(x) for x in ast.walk(loops[0])}
+    for st in sorted((x for x in ast.walk(init.node) if isinstance(x, ast.Assign)), key=order):
+        # (the first conversion of the scaled name after the loop, whatever local receives it)
+        if after is None and isinstance(st.targets[0], ast.Name) and isinstance(st.value, ast.Call) and order(st) > order(loops[0]) and id(st) not in inside \
                 and len(st.value.args) >= 1 and isinstance(st.value.args[0], ast.Name) and st.value.args[0].id == X:
             fname = st.value.func.id if isinstance(st.value.func, ast.Name) else st.value.func.attr if isinstance(st.value.func, ast.Attribute) else None
             if fname in ("round", "int", "floor", "ceil", "trunc"):
